@@ -299,7 +299,7 @@ def env_job(job):
 
 def example_job(plot):
     d = os.path.join(W.dir, 'example_%d' % int(plot))
-    shutil.copytree('/repo/examples', d, ignore=shutil.ignore_patterns('*.py', '*output*', 'plot_*'))
+    shutil.copytree(os.path.join(core.REPO, 'examples'), d, ignore=shutil.ignore_patterns('*.py', '*output*', 'plot_*'))
     labels = []
     np.random.seed(1)
     try:
